@@ -124,6 +124,13 @@ Proof. symmetry. apply Permutation_length, order_perm. Qed.
 Lemma merge_items a b pr ps : items (merge a b pr ps) = order (items a ++ items b).
 Proof. reflexivity. Qed.
 
+Lemma merge_empty_b a b pr ps : items b = [] -> items (merge a b pr ps) = order (items a).
+Proof. intros H. rewrite merge_items, H, app_nil_r. reflexivity. Qed.
+
+Lemma merge_sorted_concat a b pr ps :
+  sorted (items a ++ items b) -> items (merge a b pr ps) = items a ++ items b.
+Proof. intros H. rewrite merge_items. apply order_sorted_id. exact H. Qed.
+
 Lemma merge_items_perm a b pr ps : Permutation (items a ++ items b) (items (merge a b pr ps)).
 Proof. apply order_perm. Qed.
 
